@@ -114,6 +114,17 @@ def run_case(case, work, rec):
                 rec.undecided("accepted level header outside the lenient grammar")
                 return
             for bi, ((lo, hi), (fn, off)) in enumerate(zip(idx, fod)):
+                # (1) every box must be readable without error, whatever the file looks like
+                reads = {}
+                for fd, fsel in (("[:]", slice(None)), (f"[{nf - 1}]", nf - 1)):
+                    try:
+                        reads[fd] = pck[fsel][lv][bi]
+                    except Exception as e:
+                        rec.violation(f"validation accepted but reading raised {type(e).__name__}: {descr}",
+                                      key=key, witness={"mutations": muts, "level": lv, "box": bi,
+                                                        "selector": fd, "exc": repr(e)[:300]})
+                        return
+                # (2) and hold the FAB that names its index range
                 loc = locate(os.path.join(ldir, fn), lo, hi)
                 if loc is None:
                     rec.undecided("FAB not uniquely locatable")
@@ -121,13 +132,7 @@ def run_case(case, work, rec):
                 pay, nc = loc
                 shape = [b - a + 1 for a, b in zip(lo, hi)]
                 for fd, fsel in (("[:]", slice(None)), (f"[{nf - 1}]", nf - 1)):
-                    try:
-                        got = pck[fsel][lv][bi]
-                    except Exception as e:
-                        rec.violation(f"validation accepted but reading raised {type(e).__name__}: {descr}",
-                                      key=key, witness={"mutations": muts, "level": lv, "box": bi,
-                                                        "selector": fd, "exc": repr(e)[:300]})
-                        return
+                    got = reads[fd]
                     if nc != nf:
                         exp = None
                     else:
